@@ -237,3 +237,32 @@ Example ex7_nvalid : List.length (all_valid (code_sem ex7_flat)) = 24. Proof. vm
 Example ex7_sound : check_sound ex7_flat = true. Proof. vm_compute. reflexivity. Qed.
 Example ex7_complete : check_complete ex7_flat = true. Proof. vm_compute. reflexivity. Qed.
 Example ex7_acount : check_accepted_count ex7_flat = true. Proof. vm_compute. reflexivity. Qed.
+
+(** A nested design (fragment F2 with a sustained crossing): Nest(CrossBlock([task],[task]), CrossBlock([color],[color])).
+    The block has the crossings [[task]; [color]] with sustain counts [2; 1]: RandomGen samples the second one (the first
+    with sustain 1; a round = a permutation of the 2 colors, task is a free factor) and rejects the candidates in
+    which task changes inside a group of 2 trials (Sustain) or is not balanced over the 4 trials (the task crossing):
+    64 keys, 8 accepted = 8 valid sequences. *)
+Open Scope string_scope.
+Definition ex8_flat : flat :=
+{| fl_design := [{| ff_name := "task"; ff_hidden := false; ff_levels := [{| lv_name := "naming"; lv_weight := 1; lv_accepts := [] |}; {| lv_name := "reading"; lv_weight := 1; lv_accepts := [] |}]; ff_window := None; ff_complex := false |};
+      {| ff_name := "color"; ff_hidden := false; ff_levels := [{| lv_name := "red"; lv_weight := 1; lv_accepts := [] |}; {| lv_name := "blue"; lv_weight := 1; lv_accepts := [] |}]; ff_window := None; ff_complex := false |}];
+   fl_act := [0; 1]; fl_crossings := [[0]; [1]]; fl_sustains := [2; 1]; fl_weights := [1; 1]; fl_sizes := [4; 2];
+   fl_preambles := [0; 0]; fl_alignment := EqualPreamble; fl_alignment_preamble := 0; fl_min_trials := 0; fl_trials := 4;
+   fl_rcc := true; fl_exclude := []; fl_excluded_derived := [];
+   fl_constraints := [(FCross);
+      (FConsistency);
+      (FSustain)];
+   fl_errors_fail := false |}.
+Close Scope string_scope.
+
+Example ex8_frag2 : frag2 ex8_flat = true. Proof. vm_compute. reflexivity. Qed.
+Example ex8_main : main_idx ex8_flat = 1. Proof. reflexivity. Qed.
+Example ex8_enum : enumerates_b ex8_flat = true. Proof. vm_compute. reflexivity. Qed.
+Example ex8_nkeys : List.length (keys_of ex8_flat) = 64. Proof. vm_compute. reflexivity. Qed.
+Example ex8_nacc : List.length (accepted_keys ex8_flat) = 8. Proof. vm_compute. reflexivity. Qed.
+Example ex8_nvalid : List.length (all_valid (code_sem ex8_flat)) = 8. Proof. vm_compute. reflexivity. Qed.
+Example ex8_sound : check_sound ex8_flat = true. Proof. vm_compute. reflexivity. Qed.
+Example ex8_inj : check_inj ex8_flat = true. Proof. vm_compute. reflexivity. Qed.
+Example ex8_complete : check_complete ex8_flat = true. Proof. vm_compute. reflexivity. Qed.
+Example ex8_acount : check_accepted_count ex8_flat = true. Proof. vm_compute. reflexivity. Qed.
